@@ -41,11 +41,13 @@ def _ids(r: random.Random, n: int):
     guard = 0
     while len(out) < n:
         guard += 1
+        if guard > 100000:
+            raise RuntimeError('id generation')
         s = style if style != 'mixed' else r.choice(['small', 'negative', 'float', 'large'])
         if s == 'small':
             v = r.randint(0, 3 * n + 5)
         elif s == 'negative':
-            v = r.randint(-60, 10)
+            v = r.randint(-60 - 3 * n, 10)
         elif s == 'float':
             v = round(r.uniform(-20, 20), r.choice([1, 2, 3]))
         elif s == 'large':
@@ -58,8 +60,6 @@ def _ids(r: random.Random, n: int):
             continue
         seen.add(v if style == 'huge_int' else float(v))
         out.append(v)
-        if guard > 100000:
-            raise RuntimeError('id generation')
     if style in ('small', 'negative') and r.random() < 0.5:
         out = [float(v) for v in out]  # integer-valued ids stored as floats
     if style == 'mixed':
